@@ -111,8 +111,8 @@ public:
       return GetOrSetOveflowAttributes(aggregation_callback);
     }
 
-    hash_map_[attributes] = aggregation_callback();
-    return hash_map_[attributes].get();
+    auto result = hash_map_.emplace(attributes, aggregation_callback());
+    return result.first->second.get();
   }
 
   Aggregation *GetOrSetDefault(MetricAttributes &&attributes,
